@@ -1,9 +1,142 @@
-import MaestroVerif.Model.Exec
+import MaestroVerif.Lemmas.ExecDemo
 
-/-! # C05 — The study terminates and its final verdict and exit code are truthful (theorems are being added) -/
+/-!
+# C05 — The study terminates and its final verdict and exit code are truthful
+
+This file: the decision logic of the verdict (`_check_study_completion`) and
+the exit codes (over the enum values regenerated from the source).  The
+liveness half (termination for every fair continuation) is in `C05Live.lean`.
+-/
 namespace MaestroVerif.C05
 open MaestroVerif.Exec MaestroVerif.Gen
 
-theorem C05_init_not_canceled (cfg : Cfg) : (init cfg).isCanceled = false := rfl
+def allResolved (cfg : Cfg) (g : G) : Prop :=
+  ∀ k, k ≤ cfg.n → k ∈ g.completed ∨ k ∈ g.failed ∨ k ∈ g.cancelled
+
+theorem allResolved_iff (cfg : Cfg) (g : G) :
+    ((List.range (cfg.n + 1)).all
+      (fun k => g.completed.contains k || g.failed.contains k || g.cancelled.contains k) = true)
+    ↔ allResolved cfg g := by
+  simp only [List.all_eq_true, List.mem_range, Bool.or_eq_true, List.contains_iff_mem, allResolved]
+  constructor
+  · intro h k hk; have := h k (by omega); grind
+  · intro h k hk; have := h k (by omega); grind
+
+/-- **exit codes** (`sys.exit(completion_status.value)`), over the generated enum -/
+theorem C05_exit_codes :
+    exitCode .FINISHED = 0 ∧ exitCode .RUNNING = 1 ∧ exitCode .FAILURE = 2 ∧ exitCode .CANCELLED = 3 := by
+  decide
+
+/-- **FINISHED is returned exactly when every step is resolved, none failed or
+was cancelled, and no cancel request is pending with nothing in flight.** -/
+theorem C05_verdict_finished (cfg : Cfg) (g : G) :
+    verdict cfg g = .FINISHED ↔
+      (allResolved cfg g ∧ g.failed = [] ∧ g.cancelled = [] ∧
+        ¬ (g.isCanceled = true ∧ g.inProgress = [])) := by
+  have hR := allResolved_iff cfg g
+  unfold verdict
+  generalize (List.range (cfg.n + 1)).all _ = R at hR ⊢
+  rw [← hR]
+  simp only [ne_eq, ← List.isEmpty_iff]
+  cases g.isCanceled <;> cases g.inProgress.isEmpty <;> cases R <;> cases g.cancelled.isEmpty <;>
+    cases g.failed.isEmpty <;> simp
+
+/-- CANCELLED: a cancel was requested and nothing is in flight, or every step is
+resolved and some step was cancelled. -/
+theorem C05_verdict_cancelled (cfg : Cfg) (g : G) :
+    verdict cfg g = .CANCELLED ↔
+      ((g.isCanceled = true ∧ g.inProgress = []) ∨ (allResolved cfg g ∧ g.cancelled ≠ [])) := by
+  have hR := allResolved_iff cfg g
+  unfold verdict
+  generalize (List.range (cfg.n + 1)).all _ = R at hR ⊢
+  rw [← hR]
+  simp only [ne_eq, ← List.isEmpty_iff]
+  cases g.isCanceled <;> cases g.inProgress.isEmpty <;> cases R <;> cases g.cancelled.isEmpty <;>
+    cases g.failed.isEmpty <;> simp
+
+/-- FAILURE: every step resolved, nothing cancelled, something failed. -/
+theorem C05_verdict_failure (cfg : Cfg) (g : G) :
+    verdict cfg g = .FAILURE ↔
+      (¬ (g.isCanceled = true ∧ g.inProgress = []) ∧ allResolved cfg g ∧ g.cancelled = [] ∧
+        g.failed ≠ []) := by
+  have hR := allResolved_iff cfg g
+  unfold verdict
+  generalize (List.range (cfg.n + 1)).all _ = R at hR ⊢
+  rw [← hR]
+  simp only [ne_eq, ← List.isEmpty_iff]
+  cases g.isCanceled <;> cases g.inProgress.isEmpty <;> cases R <;> cases g.cancelled.isEmpty <;>
+    cases g.failed.isEmpty <;> simp
+
+/-- **FINISHED/0 only when every step finished successfully**: in every
+reachable state with verdict FINISHED each step instance is in state FINISHED
+(DRYRUN in a dry run), and no cancel had been requested. -/
+theorem C05_finished_all_success {cfg : Cfg} (wf : WFCfg' cfg) {g : G} (h : Reachable cfg g)
+    (hv : verdict cfg g = .FINISHED) :
+    (∀ k, k ≤ cfg.n → k ≠ 0 → g.status k = .FINISHED ∨ g.status k = .DRYRUN) ∧
+    g.isCanceled = false := by
+  obtain ⟨hall, hf, hcn, hnc⟩ := (C05_verdict_finished cfg g).mp hv
+  have A := invAll_reachable wf h
+  have a := A.toInv.toInvA
+  constructor
+  · intro k hk hk0
+    rcases hall k hk with h1 | h1 | h1
+    · exact a.cmpS k h1 hk0
+    · rw [hf] at h1; simp at h1
+    · rw [hcn] at h1; simp at h1
+  · cases hc : g.isCanceled with
+    | false => rfl
+    | true =>
+      exfalso
+      apply hnc
+      refine ⟨hc, ?_⟩
+      cases hl : g.inProgress with
+      | nil => rfl
+      | cons x xs =>
+        exfalso
+        have hx : x ∈ g.inProgress := by rw [hl]; simp
+        have d := a.ipD x hx
+        rcases hall x (a.bnd x (Or.inr (Or.inl hx))) with h1 | h1 | h1
+        · exact d.1 h1
+        · exact d.2.1 h1
+        · exact d.2.2.1 h1
+
+/-- **… and always then, unless a cancel was requested**: if every step is
+complete and no cancel was requested, the verdict is FINISHED. -/
+theorem C05_all_success_finished {cfg : Cfg} (wf : WFCfg' cfg) {g : G} (h : Reachable cfg g)
+    (hall : ∀ k, k ≤ cfg.n → k ∈ g.completed) (hc : g.isCanceled = false) :
+    verdict cfg g = .FINISHED := by
+  have a := (invAll_reachable wf h).toInv.toInvA
+  rw [C05_verdict_finished]
+  refine ⟨fun k hk => Or.inl (hall k hk), ?_, ?_, by simp [hc]⟩
+  · cases hl : g.failed with
+    | nil => rfl
+    | cons x xs =>
+      exfalso
+      have hx : x ∈ g.failed := by rw [hl]; simp
+      exact (a.cD x (hall x (a.bnd x (by simp [hx])))).1 hx
+  · cases hl : g.cancelled with
+    | nil => rfl
+    | cons x xs =>
+      exfalso
+      have hx : x ∈ g.cancelled := by rw [hl]; simp
+      exact (a.cD x (hall x (a.bnd x (by simp [hx])))).2.1 hx
+
+/-- the verdict is one of the four values and RUNNING means something is still
+unresolved or in flight (the three final verdicts are exclusive and exhaustive) -/
+theorem C05_verdict_running (cfg : Cfg) (g : G) :
+    verdict cfg g = .RUNNING ↔
+      (¬ (g.isCanceled = true ∧ g.inProgress = []) ∧ ¬ allResolved cfg g) := by
+  have hR := allResolved_iff cfg g
+  unfold verdict
+  generalize (List.range (cfg.n + 1)).all _ = R at hR ⊢
+  rw [← hR]
+  simp only [ne_eq, ← List.isEmpty_iff]
+  cases g.isCanceled <;> cases g.inProgress.isEmpty <;> cases R <;> cases g.cancelled.isEmpty <;>
+    cases g.failed.isEmpty <;> simp
+
+/-! non-vacuity -/
+example : verdict demoCfg (run demoCfg demoOps) = .CANCELLED ∧
+    exitCode (verdict demoCfg (run demoCfg demoOps)) = 3 := by
+  rw [demo_state.2.2.2.2.2]; decide
 
 end MaestroVerif.C05
